@@ -25,7 +25,7 @@ func (x *Exec) builtin(st *State, fr *Frame, dst ssa.Value, b *ssa.Builtin, args
 		case *types.Slice:
 			set(intVal(a.Fields[1].Term))
 		case *types.Map:
-			ln := st.mapLen(a.Term)
+			ln := st.mapLen(t, a.Term)
 			st.Assume(Ge(ln, IntLit(0)))
 			set(intVal(Ite(Eq(a.Term, IntLit(0)), IntLit(0), ln)))
 		case *types.Basic:
@@ -128,11 +128,13 @@ func (x *Exec) model(st *State, fr *Frame, dst ssa.Value, callee *ssa.Function, 
 		r := x.refOf(args[0])
 		wg := st.ghostArr("wg", SInt)
 		x.siteAsserts(st, fr, "wgadd:"+x.argPath(fr, 0), pos)
+		st.Assume(Ge(Select(wg, r), IntLit(0)))
 		nv := Add(Select(wg, r), args[1].Term)
 		k := x.site(st, "wgadd")
 		x.oblige(st, "nopanic", fmt.Sprintf("nopanic:waitgroup-negative@add#%d", k), Ge(nv, IntLit(0)), pos, "")
 		st.setGhostArr("wg", Store(wg, r, nv))
 		mine := st.ghostArr("wgmine", SInt)
+		st.Assume(Ge(Select(mine, r), IntLit(0))) // a thread never owns a negative number of tokens
 		st.setGhostArr("wgmine", Store(mine, r, Add(Select(mine, r), args[1].Term)))
 	case "(*sync.WaitGroup).Done":
 		r := x.refOf(args[0])
@@ -151,6 +153,10 @@ func (x *Exec) model(st *State, fr *Frame, dst ssa.Value, callee *ssa.Function, 
 		x.interfere(st, "WaitGroup.Wait")
 		st.Assume(Eq(Select(st.ghostArr("wg", SInt), r), IntLit(0)))
 		st.Trace = append(st.Trace, "wg.Wait returns")
+	case "encoding/json.Marshal":
+		return x.jsonMarshal(st, fr, dst, args, pos)
+	case "encoding/json.Unmarshal":
+		return x.jsonUnmarshal(st, fr, dst, args, pos)
 	case "context.WithCancel", "context.WithTimeout", "context.WithDeadline":
 		// fresh child context; the returned cancel function cancels exactly it (ASSUMED model of package context)
 		x.note("ASSUMED model of context." + callee.Name() + ": fresh child context inheriting the parent's values; the returned function cancels that child; a child of a cancelled parent is cancelled")
@@ -453,6 +459,30 @@ func (x *Exec) interfere(st *State, why string) {
 			}
 			for _, f := range fields {
 				ft := fieldTypeAt(root, []string{f})
+				if mt, isMap := ft.Underlying().(*types.Map); isMap {
+					// the monitor also owns the contents of the map stored in the field
+					regMapSorts(mt)
+					hk, lk, vp := mapKeys(mt)
+					fams := []string{hk, lk}
+					var mls []leafInfo
+					leaves(mt.Elem(), "", &mls)
+					for _, ml := range mls {
+						fams = append(fams, vp+"$"+ml.Path)
+					}
+					var keepMaps []*Term
+					for _, b := range keep {
+						keepMaps = append(keepMaps, st.loadPath(root, b, f, ft).Term)
+					}
+					for _, fam := range fams {
+						cur := st.heapGet(fam, heapSorts[fam])
+						nw := Fresh("if$"+fam, heapSorts[fam])
+						for _, km := range keepMaps {
+							nw = Store(nw, km, Select(cur, km))
+						}
+						st.Heap[fam] = nw
+						changed = true
+					}
+				}
 				var ls []leafInfo
 				leaves(ft, f, &ls)
 				for _, l := range ls {
@@ -486,6 +516,20 @@ func (x *Exec) interfere(st *State, why string) {
 		patched = Store(patched, own, Select(cl, own))
 	}
 	st.setGhostArr("closed", patched)
+	// channels stored in fields declared `ownschan` are closed only under their type's protocol
+	for _, tk := range tcs {
+		tc := x.V.C.Types[tk]
+		root := x.V.namedByName(tk)
+		if root == nil {
+			continue
+		}
+		for _, f := range tc.OwnsChan {
+			key := heapKeyField(root, f)
+			fh := st.heapGet(key, ArrSort(SInt, SInt))
+			o := BoundVar("o", SInt)
+			st.Assume(Forall([]*Term{o}, Eq(Select(patched, Select(fh, o)), Select(cl, Select(fh, o)))))
+		}
+	}
 	// buffered lengths may change arbitrarily (within capacity)
 	ln := st.ghostArr("clen", SInt)
 	nln := Fresh("if$clen", ArrSort(SInt, SInt))
@@ -585,6 +629,9 @@ func (x *Exec) recv(st *State, fr *Frame, i *ssa.UnOp, ch *Val) {
 		vs := x.fork(st)
 		v := freshVal(et, "recv$"+sanitize(ap))
 		vs.assumeValAllocated(v)
+		if x.recvNonNil(ap) && v.Term != nil {
+			vs.Assume(Neq(v.Term, IntLit(0)))
+		}
 		vs.Trace = append(vs.Trace, "recv "+ap+": value")
 		x.logRecv(vs, ap, v)
 		mkRes(vs, v, True)
@@ -595,11 +642,21 @@ func (x *Exec) recv(st *State, fr *Frame, i *ssa.UnOp, ch *Val) {
 		return
 	}
 	st.Assume(st.closed(ch.Term))
+	if ap == "ctxdone" {
+		if call, ok := i.X.(*ssa.Call); ok {
+			if cv := x.val(st, fr, call.Call.Value); cv != nil && cv.Term != nil {
+				st.Assume(Select(st.ghostArr("cancelled", SBool), cv.Term))
+			}
+		}
+	}
 	st.Trace = append(st.Trace, "recv "+ap+": closed")
 	mkRes(st, zeroVal(et), False)
 }
 
 func (x *Exec) neverClosed(ap string) bool {
+	if x.V.neverClosedField(x, ap) {
+		return true
+	}
 	if x.FC == nil {
 		return false
 	}
@@ -635,6 +692,9 @@ func (x *Exec) send(st *State, fr *Frame, i *ssa.Send) {
 	x.interfere(st, "send "+ap)
 	st.Assume(Neq(ch.Term, IntLit(0)))
 	k := x.site(st, "send:"+ap)
+	if x.neverClosed(ap) {
+		st.Assume(Not(st.closed(ch.Term)))
+	}
 	x.oblige(st, "nopanic", fmt.Sprintf("nopanic:send-on-closed@%s#%d", ap, k), Not(st.closed(ch.Term)), i.Pos(), "")
 	st.Assume(Not(st.closed(ch.Term)))
 	x.logSend(st, ap, v)
@@ -727,9 +787,20 @@ func (x *Exec) selectStmt(st *State, fr *Frame, i *ssa.Select) {
 				build(s1, ci, ri, v, True)
 				states = append(states, s1)
 			}
+			if x.neverClosed(ap) {
+				ri++
+				continue
+			}
 			s2 := st.Clone()
 			s2.Assume(Neq(ch.Term, IntLit(0)))
 			s2.Assume(s2.closed(ch.Term))
+			if ap == "ctxdone" {
+				if call, ok := c.Chan.(*ssa.Call); ok {
+					if cv := x.val(s2, s2.Top(), call.Call.Value); cv != nil && cv.Term != nil {
+						s2.Assume(Select(s2.ghostArr("cancelled", SBool), cv.Term))
+					}
+				}
+			}
 			s2.Trace = append(s2.Trace, fmt.Sprintf("select#%d: recv %s closed", k, ap))
 			build(s2, ci, ri, zeroVal(et), False)
 			states = append(states, s2)
@@ -738,6 +809,9 @@ func (x *Exec) selectStmt(st *State, fr *Frame, i *ssa.Select) {
 			s1 := st.Clone()
 			s1.Assume(Neq(ch.Term, IntLit(0)))
 			kk := x.site(s1, "send:"+ap)
+			if x.neverClosed(ap) {
+				s1.Assume(Not(s1.closed(ch.Term)))
+			}
 			x.oblige(s1, "nopanic", fmt.Sprintf("nopanic:send-on-closed@%s#%d", ap, kk), Not(s1.closed(ch.Term)), i.Pos(), "")
 			s1.Assume(Not(s1.closed(ch.Term)))
 			sv := x.val(s1, s1.Top(), c.Send)
@@ -792,7 +866,11 @@ func (x *Exec) goStmt(st *State, fr *Frame, i *ssa.Go) {
 			name = accessPath(c.Value)
 		}
 	}
-	x.siteAsserts(st, fr, "go:"+name, i.Pos())
+	extra := map[string]*Val{}
+	for ai, a := range args {
+		extra[fmt.Sprintf("goarg%d", ai)] = a
+	}
+	x.siteAssertsWith(st, fr, "go:"+name, i.Pos(), extra)
 	k := x.site(st, "go:"+name)
 	if callee != nil {
 		if fc, ok := x.V.C.Funcs[x.V.P.FuncKey(callee)]; ok {
@@ -801,9 +879,33 @@ func (x *Exec) goStmt(st *State, fr *Frame, i *ssa.Go) {
 				g := x.V.evalBool(env, cl.E)
 				x.oblige(st, "pre", fmt.Sprintf("pre:%s@go:%s#%d", cl.Label, name, k), g, i.Pos(), cl.Text)
 			}
-			// lock hand-off
-			for _, cl := range fc.Of("thread-entry") {
-				_ = cl
+			for _, cl := range fc.Of("ghost") {
+				switch {
+				case strings.HasPrefix(cl.Text, "consumes-wg "):
+					// the new goroutine takes over one WaitGroup token of the spawning thread
+					e, err := ParseExpr(strings.TrimPrefix(cl.Text, "consumes-wg "))
+					if err != nil {
+						panic(unsupported{err.Error()})
+					}
+					r := x.refOf(x.V.syncRef(env, e))
+					mine := st.ghostArr("wgmine", SInt)
+					x.oblige(st, "pre", fmt.Sprintf("pre:wg-token-handed-over@go:%s#%d", name, k), Ge(Select(mine, r), IntLit(1)), i.Pos(), cl.Text)
+					st.setGhostArr("wgmine", Store(mine, r, Sub(Select(mine, r), IntLit(1))))
+				case strings.HasPrefix(cl.Text, "holds "):
+					// lock hand-off: the spawning thread must hold the lock and gives it up
+					e, err := ParseExpr(strings.TrimPrefix(cl.Text, "holds "))
+					if err != nil {
+						panic(unsupported{err.Error()})
+					}
+					lv := x.V.evalLockRef(env, x, st, e)
+					id := x.refOf(lv).String()
+					if _, ok := st.Held[id]; ok {
+						x.oblige(st, "pre", fmt.Sprintf("pre:lock-handed-over@go:%s#%d", name, k), True, i.Pos(), cl.Text)
+						delete(st.Held, id)
+					} else {
+						x.failHard(st, "pre", fmt.Sprintf("pre:lock-handed-over@go:%s#%d", name, k), i.Pos(), "the goroutine's contract says it holds "+cl.Text+" at entry, but the spawning thread does not hold it")
+					}
+				}
 			}
 		}
 	}
@@ -870,7 +972,7 @@ func (x *Exec) rangeNext(st *State, fr *Frame, i *ssa.Next) {
 	done := x.fork(st)
 	kb := BoundVar("k", it.KeySort)
 	done.Assume(Forall([]*Term{kb}, Implies(And(Neq(m, IntLit(0)), done.mapHas(mt, m, kb)), Select(vis, kb))))
-	done.Assume(Eq(done.heapGet(it.Visited+"$n", SInt), Ite(Eq(m, IntLit(0)), IntLit(0), done.mapLen(m))))
+	done.Assume(Eq(done.heapGet(it.Visited+"$n", SInt), Ite(Eq(m, IntLit(0)), IntLit(0), done.mapLen(mt, m))))
 	done.Trace = append(done.Trace, "range: done")
 	done.Top().Regs[i] = &Val{T: i.Type(), Fields: []*Val{boolVal(False), zeroVal(mt.Key()), zeroVal(mt.Elem())}}
 	// next element
@@ -880,9 +982,165 @@ func (x *Exec) rangeNext(st *State, fr *Frame, i *ssa.Next) {
 	st.Assume(Not(Select(vis, k)))
 	st.Heap[it.Visited] = Store(vis, k, True)
 	st.Heap[it.Visited+"$n"] = Add(st.heapGet(it.Visited+"$n", SInt), IntLit(1))
-	st.Assume(Le(st.Heap[it.Visited+"$n"], st.mapLen(m)))
+	st.Assume(Le(st.Heap[it.Visited+"$n"], st.mapLen(mt, m)))
 	v := st.mapVal(mt, m, k)
 	st.assumeValAllocated(v)
 	st.Trace = append(st.Trace, "range: next")
 	fr.Regs[i] = &Val{T: i.Type(), Fields: []*Val{boolVal(True), {T: mt.Key(), Term: k}, v}}
+}
+
+// ---- encoding/json (ASSUMED round-trip law, stated through decoding functions of the encoded bytes) ----
+
+// jsonTarget: the struct type behind a boxed pointer argument of json.Marshal/Unmarshal.
+func (x *Exec) jsonTarget(v *Val) (*types.Named, *Term) {
+	if v.Term == nil || (v.Term.Kind != kUF && v.Term.Kind != kConst) {
+		return nil, nil
+	}
+	bs, ok := boxRegistry[v.Term.Op]
+	if !ok || !strings.HasPrefix(bs.TName, "*") || len(v.Term.Args) != 1 {
+		return nil, nil
+	}
+	ns := x.V.namedByName(bs.TName[1:])
+	if ns == nil {
+		return nil, nil
+	}
+	if _, ok := ns.Underlying().(*types.Struct); !ok {
+		return nil, nil
+	}
+	return ns, v.Term.Args[0]
+}
+
+func jsonFn(ns *types.Named, path, suffix string) string {
+	return "json$" + typeName(ns) + "$" + path + suffix
+}
+
+func (st *State) bytesOf(sl *Val) *Term {
+	h := st.heapGet(sliceHeapKey(types.Typ[types.Uint8], ""), ArrSort(SInt, ArrSort(SInt, SInt)))
+	return UF("bytes_str", SStr, Select(h, sl.Fields[0].Term), sl.Fields[1].Term)
+}
+
+// jsonRelate: content of the struct at ptr  <->  decoding functions applied to the encoded bytes B.
+// mode "encode": assume the decoders give back the content. mode "decode": write decoded content into the struct.
+func (x *Exec) jsonRelate(st *State, ns *types.Named, ptr, B *Term, decode bool) {
+	stt := ns.Underlying().(*types.Struct)
+	for i := 0; i < stt.NumFields(); i++ {
+		f := stt.Field(i)
+		switch ft := f.Type().Underlying().(type) {
+		case *types.Basic:
+			srt := leafSort(f.Type())
+			dec := UF(jsonFn(ns, f.Name(), ""), srt, B)
+			if decode {
+				st.storePath(ns, ptr, f.Name(), f.Type(), &Val{T: f.Type(), Term: dec})
+			} else {
+				st.Assume(Eq(dec, st.loadPath(ns, ptr, f.Name(), f.Type()).Term))
+			}
+		case *types.Slice:
+			if b, ok := ft.Elem().Underlying().(*types.Basic); !ok || b.Kind() != types.Uint8 {
+				unsupportedf("json model: field %s of type %s", f.Name(), f.Type())
+			}
+			dec := UF(jsonFn(ns, f.Name(), "$bytes"), SStr, B)
+			if decode {
+				base := st.newRef("jsonbytes")
+				ln := Fresh("jsonlen", SInt)
+				st.Assume(Ge(ln, IntLit(0)))
+				nv := &Val{T: f.Type(), Fields: []*Val{{Term: Ite(Eq(ln, IntLit(0)), Fresh("maybenil", SInt), base)}, {Term: ln}}}
+				st.Assume(Or(Eq(nv.Fields[0].Term, IntLit(0)), Eq(nv.Fields[0].Term, base)))
+				st.storePath(ns, ptr, f.Name(), f.Type(), nv)
+				st.Assume(Eq(st.bytesOf(nv), dec))
+			} else {
+				st.Assume(Eq(dec, st.bytesOf(st.loadPath(ns, ptr, f.Name(), f.Type()))))
+			}
+		case *types.Map:
+			ks := leafSort(ft.Key())
+			if ks != SStr || shapeOf(ft.Elem()) != shLeaf {
+				unsupportedf("json model: map field %s", f.Name())
+			}
+			vs := leafSort(ft.Elem())
+			k := BoundVar("k", ks)
+			decHas := UF(jsonFn(ns, f.Name(), "$has"), SBool, B, k)
+			decVal := UF(jsonFn(ns, f.Name(), "$val"), vs, B, k)
+			var m *Term
+			if decode {
+				nm := st.newRef("jsonmap")
+				m = Fresh("jsonmapornil", SInt)
+				st.Assume(Or(Eq(m, IntLit(0)), Eq(m, nm)))
+				st.storePath(ns, ptr, f.Name(), f.Type(), &Val{T: f.Type(), Term: m})
+			} else {
+				m = st.loadPath(ns, ptr, f.Name(), f.Type()).Term
+			}
+			has := And(Neq(m, IntLit(0)), st.mapHas(ft, m, k))
+			val := st.mapVal(ft, m, k).Term
+			st.Assume(Forall([]*Term{k}, And(Eq(decHas, has), Implies(has, Eq(decVal, val)))))
+		default:
+			unsupportedf("json model: field %s of type %s", f.Name(), f.Type())
+		}
+	}
+}
+
+func (x *Exec) jsonMarshal(st *State, fr *Frame, dst ssa.Value, args []*Val, pos token.Pos) bool {
+	x.note("ASSUMED encoding/json: Marshal's output determines every field of the encoded struct (round-trip law for valid UTF-8 strings, []byte and map[string]string), Unmarshal reads exactly those values back; either may fail")
+	byteSlice := types.NewSlice(types.Typ[types.Uint8])
+	errT := types.Universe.Lookup("error").Type()
+	base := st.newRef("json")
+	ln := Fresh("jsonlen", SInt)
+	st.Assume(Ge(ln, IntLit(0)))
+	out := &Val{T: byteSlice, Fields: []*Val{{Term: base}, {Term: ln}}}
+	// failure branch
+	fs := x.fork(st)
+	ferr := Fresh("jsonerr", SInt)
+	fs.Assume(Gt(ferr, IntLit(0)))
+	fs.Top().Regs[dst] = &Val{T: dst.Type(), Fields: []*Val{zeroVal(byteSlice), {T: errT, Term: ferr}}}
+	fs.Trace = append(fs.Trace, "json.Marshal fails")
+	B := st.bytesOf(out)
+	if ns, ptr := x.jsonTarget(args[0]); ns != nil {
+		x.jsonRelate(st, ns, ptr, B, false)
+	} else {
+		st.Assume(Eq(B, UF("json$enc", SStr, args[0].Term)))
+	}
+	fr.Regs[dst] = &Val{T: dst.Type(), Fields: []*Val{out, {T: errT, Term: IntLit(0)}}}
+	st.Trace = append(st.Trace, "json.Marshal ok")
+	return true
+}
+
+func (x *Exec) jsonUnmarshal(st *State, fr *Frame, dst ssa.Value, args []*Val, pos token.Pos) bool {
+	x.note("ASSUMED encoding/json: Marshal's output determines every field of the encoded struct (round-trip law for valid UTF-8 strings, []byte and map[string]string), Unmarshal reads exactly those values back; either may fail")
+	errT := types.Universe.Lookup("error").Type()
+	B := st.bytesOf(args[0])
+	ns, ptr := x.jsonTarget(args[1])
+	// failure branch: target left in an unspecified state
+	fs := x.fork(st)
+	ferr := Fresh("jsonerr", SInt)
+	fs.Assume(Gt(ferr, IntLit(0)))
+	if ns != nil {
+		fs.storePath(ns, ptr, "", ns, freshVal(ns, "jsonpartial"))
+	}
+	fs.Top().Regs[dst] = &Val{T: errT, Term: ferr}
+	fs.Trace = append(fs.Trace, "json.Unmarshal fails")
+	if ns != nil {
+		x.jsonRelate(st, ns, ptr, B, true)
+	} else if args[1].Cell != nil && shapeOf(args[1].Cell.T) == shLeaf {
+		// pointer to a local variable of an opaque (leaf) type: the decoded value is a function of the bytes
+		c := args[1].Cell
+		st.Cells[c] = &Val{T: c.T, Term: UF("json$dec$"+typeName(c.T), leafSort(c.T), B)}
+		fs.Cells[c] = freshVal(c.T, "jsonpartial")
+	} else {
+		// unknown target type: its content afterwards is a function of the bytes (nothing more is known)
+		st.setGhostArr("jsondecoded", Store(st.ghostArr("jsondecoded", SStr), args[1].Term, B))
+	}
+	fr.Regs[dst] = &Val{T: errT, Term: IntLit(0)}
+	st.Trace = append(st.Trace, "json.Unmarshal ok")
+	return true
+}
+
+func (x *Exec) recvNonNil(ap string) bool {
+	if x.FC == nil {
+		return false
+	}
+	for _, cl := range x.FC.Of("ghost") {
+		if cl.Text == "recv-nonnil "+ap {
+			x.note("ASSUMED: values received from " + ap + " are never nil")
+			return true
+		}
+	}
+	return false
 }
